@@ -61,6 +61,9 @@ def make(recipe):
     recipe = _norm(recipe)
     if recipe[0] == "cat":
         return cat_build(recipe)
+    if recipe[0] == "zoo":
+        from mc import zoo
+        return zoo.value(recipe[1], recipe[2])
     return build.build(recipe)
 
 
@@ -120,11 +123,12 @@ def _safe_key(t):
 
 def dagger_of(v, cls):
     """(dagger, None) or (None, reason) when this category has no dagger for that value."""
+    from discopy import cat
     try:
         return v[::-1], None
     except TypeError as e:
-        if cls in NO_DAGGER_OK:
-            return None, "unsupported"
+        if cls in NO_DAGGER_OK or any(isinstance(b, cat.Bubble) for b in v.boxes):
+            return None, "unsupported"   # rule boxes, python functions and bubbles have no dagger
         raise
 
 
@@ -356,6 +360,35 @@ def run(ctx):
                 for r2 in rs[:5]:
                     for r3 in H:
                         items.append(("sum", dict(cls=cls, r1=r1, r2=r2, r3=r3)))
+    # the box zoo: every box constructor x flag variant and the composite subclasses, per class
+    from mc import zoo
+    nz = 0
+    for cls in zoo.CLASSES:
+        ents = [("zoo", cls, e) for e in zoo.entries(cls)]
+        nz += len(ents)
+        vals = [(r, make(r)) for r in ents]
+        for r, _ in vals:
+            items.append(("unary", dict(cls=cls, r=r)))
+        stride = 1 if (not ctx.quick or len(ents) <= 40) else 5
+        k = 0
+        for r1, v1 in vals:
+            for r2, v2 in vals:
+                composable = _safe_key(v1.cod) == _safe_key(v2.dom)
+                k += 1
+                if composable or k % stride == 0:
+                    items.append(("binary", dict(cls=cls, r1=r1, r2=r2)))
+        if stride > 1:
+            ctx.cap_hit("zoo: non-composable pairs of %s every %dth (all composable pairs taken)" % (cls, stride))
+        par = {}
+        for r, v in vals:
+            par.setdefault((_safe_key(v.dom), _safe_key(v.cod)), []).append(r)
+        for rs in par.values():
+            for r1 in rs[:4]:
+                for r2 in rs[:4]:
+                    for r3 in (rs[0], ents[0], ents[len(ents) // 2]):
+                        items.append(("sum", dict(cls=cls, r1=r1, r2=r2, r3=r3)))
+    ctx.count("states", nz)
+    ctx.bounds["zoo"] = "%d box constructors/flag variants/composite subclasses over %d classes" % (nz, len(zoo.CLASSES))
     for p in pmap(_worker, build.shards(items, 96)):
         ctx.merge(p)
     ctx.counters["traces_validated_against_impl"] = ctx.counters.get("transitions", 0)
